@@ -118,6 +118,15 @@ func Load(repo, fixDir string) (*Prog, error) {
 	if fixDir != "" {
 		overlay = fixtureOverlay(repo, fixDir)
 	}
+	if mo := mutantOverlay(repo); mo != nil { // rule self-test (thorough tier): patched copies of single files
+		if overlay == nil {
+			overlay = map[string][]byte{}
+		}
+		for k, v := range mo {
+			overlay[k] = v
+		}
+		p.LoadNotes = append(p.LoadNotes, fmt.Sprintf("self-test overlay: %d patched files", len(mo)))
+	}
 	pkgs, fset, err := loadOnce(repo, overlay)
 	if err != nil {
 		return nil, err
